@@ -10,7 +10,9 @@ package main
 
 import (
 	"fmt"
+	"regexp"
 	"sort"
+	"strconv"
 	"strings"
 	"sync"
 
@@ -39,6 +41,10 @@ type aIdx struct {
 	Unique bool    `json:"unique"`
 	Parts  []aPart `json:"parts"`
 	Attrs  int     `json:"attrs"`
+	// Gen: the index carries the name the database generates for an unnamed index / UNIQUE constraint on
+	// these parts (MySQL: the first column, PostgreSQL: <table>_<columns>_key, SQLite: sqlite_autoindex_<table>_<n>);
+	// Name is then the token 90 + number of the first column.
+	Gen bool `json:"generated,omitempty"`
 	// Perm: build the schema.Index with its Parts slice in reverse order (SeqNo still gives the real
 	// order); not part of the abstract schema, hence not sent to the model.
 	Perm bool `json:"-"`
@@ -352,6 +358,47 @@ func c02Composite() (base []aTable, edits []aEdit) {
 	return
 }
 
+// c02GenIdx: the current table holds an index under the name the database generates for unnamed ones; the
+// desired table describes it (or something else) without a name. (base, edit) pairs.
+func c02GenIdx() (out []struct {
+	Base []aTable
+	Ed   aEdit
+}) {
+	mk := func(gen bool, unique bool) []aTable {
+		b := c02Base()
+		i := tIdx(b, 3)
+		n := 92
+		if !gen {
+			n = 8
+		}
+		b[i].Idxs = []aIdx{{Name: ip(n), Gen: gen, Unique: unique, Parts: []aPart{{Col: 2}}}}
+		return b
+	}
+	add := func(base []aTable, desc string, expect []string, idxs []aIdx) {
+		out = append(out, struct {
+			Base []aTable
+			Ed   aEdit
+		}{base, aEdit{Desc: desc, Expect: expect, Apply: func(ts []aTable) []aTable {
+			i := tIdx(ts, 3)
+			ts[i].Idxs = idxs
+			return ts
+		}}})
+	}
+	for _, u := range []bool{true, false} {
+		us := fmt.Sprintf("(unique=%v)", u)
+		add(mk(true, u), "generated-name index described without a name "+us, nil, []aIdx{{Unique: u, Parts: []aPart{{Col: 2}}}})
+		add(mk(true, u), "generated-name index vs unnamed with the other uniqueness "+us, []string{"3:addIndex _", "3:dropIndex 92"}, []aIdx{{Unique: !u, Parts: []aPart{{Col: 2}}}})
+		add(mk(true, u), "generated-name index vs unnamed on another column "+us, []string{"3:addIndex _", "3:dropIndex 92"}, []aIdx{{Unique: u, Parts: []aPart{{Col: 1}}}})
+		add(mk(true, u), "generated-name index vs unnamed descending "+us, []string{"3:addIndex _", "3:dropIndex 92"}, []aIdx{{Unique: u, Parts: []aPart{{Col: 2, Desc: true}}}})
+		add(mk(true, u), "generated-name index vs unnamed with one more part "+us, []string{"3:addIndex _", "3:dropIndex 92"}, []aIdx{{Unique: u, Parts: []aPart{{Col: 2}, {Col: 1}}}})
+		add(mk(true, u), "generated-name index dropped "+us, []string{"3:dropIndex 92"}, nil)
+		add(mk(true, u), "generated-name index kept under its name "+us, nil, []aIdx{{Name: ip(92), Gen: true, Unique: u, Parts: []aPart{{Col: 2}}}})
+		add(mk(true, u), "generated-name index, two unnamed candidates "+us, []string{"3:addIndex _"}, []aIdx{{Unique: !u, Parts: []aPart{{Col: 2}}}, {Unique: u, Parts: []aPart{{Col: 2}}}})
+		add(mk(false, u), "ordinary named index vs the same index without a name "+us, []string{"3:addIndex _", "3:dropIndex 8"}, []aIdx{{Unique: u, Parts: []aPart{{Col: 2}}}})
+	}
+	return
+}
+
 // ---- concrete schemas ----
 
 func c02Type(d string, tok int) schema.Type {
@@ -468,6 +515,9 @@ func c02Build(d string, ts []aTable) *schema.Schema {
 			if ai.Name != nil {
 				n = fmt.Sprintf("i%d", *ai.Name)
 			}
+			if ai.Gen {
+				n = c02GenName(d, at.Name, ai)
+			}
 			ix := schema.NewIndex(n).SetUnique(ai.Unique)
 			parts(t, ix, ai.Parts, ai.Perm)
 			t.AddIndexes(ix)
@@ -525,7 +575,41 @@ type kb = struct {
 	n string
 }
 
+var reGenName = regexp.MustCompile(`^(?:c(\d+)|t\d+_c(\d+)(?:_c\d+)*_key|sqlite_autoindex_t\d+_(\d+))$`)
+
+// c02GenName is the name the dialect's database generates for the index.
+func c02GenName(d string, table int, ai aIdx) string {
+	first := ai.Parts[0].Col
+	switch d {
+	case "mysql":
+		return fmt.Sprintf("c%d", first)
+	case "postgres":
+		cols := make([]string, len(ai.Parts))
+		for i, p := range ai.Parts {
+			cols[i] = fmt.Sprintf("c%d", p.Col)
+		}
+		return fmt.Sprintf("t%d_%s_key", table, strings.Join(cols, "_"))
+	}
+	return fmt.Sprintf("sqlite_autoindex_t%d_%d", table, first)
+}
+
 func num(s string) string { return strings.TrimLeft(s, "tcifk") }
+
+// idxNum: the token of an index name ("_" for an unnamed index, 90+k for a generated name).
+func idxNum(s string) string {
+	if s == "" {
+		return "_"
+	}
+	if m := reGenName.FindStringSubmatch(s); m != nil {
+		for _, g := range m[1:] {
+			if g != "" {
+				n, _ := strconv.Atoi(g)
+				return fmt.Sprint(90 + n)
+			}
+		}
+	}
+	return strings.TrimLeft(s, "tcifk")
+}
 
 func c02Canon(changes []schema.Change) []string {
 	var out []string
@@ -546,11 +630,11 @@ func c02Canon(changes []schema.Change) []string {
 				case *schema.ModifyColumn:
 					out = append(out, p+"modifyColumn "+num(s.From.Name)+" ["+kindBits(s.Change, []kb{{schema.ChangeType, "0"}, {schema.ChangeNull, "1"}, {schema.ChangeDefault, "2"}, {schema.ChangeComment, "3"}})+"]")
 				case *schema.AddIndex:
-					out = append(out, p+"addIndex "+num(s.I.Name))
+					out = append(out, p+"addIndex "+idxNum(s.I.Name))
 				case *schema.DropIndex:
-					out = append(out, p+"dropIndex "+num(s.I.Name))
+					out = append(out, p+"dropIndex "+idxNum(s.I.Name))
 				case *schema.ModifyIndex:
-					out = append(out, p+"modifyIndex "+num(s.From.Name)+" ["+kindBits(s.Change, []kb{{schema.ChangeUnique, "0"}, {schema.ChangeAttr, "1"}, {schema.ChangeParts, "2"}})+"]")
+					out = append(out, p+"modifyIndex "+idxNum(s.From.Name)+" ["+kindBits(s.Change, []kb{{schema.ChangeUnique, "0"}, {schema.ChangeAttr, "1"}, {schema.ChangeParts, "2"}})+"]")
 				case *schema.AddPrimaryKey:
 					out = append(out, p+"addPK")
 				case *schema.DropPrimaryKey:
@@ -637,7 +721,7 @@ func runC02(e *Env) error {
 	if e.Thorough() {
 		nrand = 6000
 	}
-	e.Res.Rule = fmt.Sprintf("dialects {mysql, postgres, sqlite} x (identity, deep copy, 20 random reorderings of tables/columns/indexes/fks/checks; the exhaustive single-edit catalogue of %d edits: add/drop table, add/drop column, modify column with every non-empty subset of {type,null,default,comment}, add/drop/modify primary key, add/drop index, modify index unique/desc/column/part order/extra part, add/drop fk, modify fk actions/columns/ref-columns/ref-table/arity, composite fk re-pairing, add/drop/modify check, table comment; %d random sets of 2-4 catalogue edits on distinct objects, each also applied to a reordered copy); real DefaultDiff.SchemaDiff in normalized mode; reported multiset of canonical changes with kind flags == catalogue expectation and == Lean model; non-trivial = at least one edit; distinct by (dialect, case)", len(cat)+len(cedits), nrand)
+	e.Res.Rule = fmt.Sprintf("dialects {mysql, postgres, sqlite} x (identity, deep copy, 20 random reorderings of tables/columns/indexes/fks/checks; the exhaustive single-edit catalogue of %d edits: add/drop table, add/drop column, modify column with every non-empty subset of {type,null,default,comment}, add/drop/modify primary key, add/drop index, modify index unique/desc/column/part order/extra part, add/drop fk, modify fk actions/columns/ref-columns/ref-table/arity, composite fk re-pairing, add/drop/modify check, table comment; PostgreSQL enum types: one enum replaced by every duplicate-free value list over 4 values, enums added/dropped/swapped (objectDiff model); current indexes under database-generated names vs desired unnamed indexes (same / other uniqueness, column, direction, arity; two candidates); %d random sets of 2-4 catalogue edits on distinct objects, each also applied to a reordered copy); real DefaultDiff.SchemaDiff in normalized mode; reported multiset of canonical changes with kind flags == catalogue expectation and == Lean model; non-trivial = at least one edit; distinct by (dialect, case)", len(cat)+len(cedits), nrand)
 	var mu sync.Mutex
 	check := func(d, id string, base, edited []aTable, expect []string, rep any) {
 		got, err := c02Diff(d, base, edited)
@@ -712,6 +796,10 @@ func runC02(e *Env) error {
 		for _, ed := range cedits {
 			jobs = append(jobs, job{d, "edit:" + ed.Desc, cbase, ed.Apply(cloneTables(cbase)), ed.Expect})
 		}
+		for _, g := range c02GenIdx() {
+			jobs = append(jobs, job{d, "edit:" + g.Ed.Desc, g.Base, g.Ed.Apply(cloneTables(g.Base)), g.Ed.Expect})
+			jobs = append(jobs, job{d, "edit+reorder:" + g.Ed.Desc, g.Base, shuffleTables(r, g.Ed.Apply(cloneTables(g.Base))), g.Ed.Expect})
+		}
 		// random edit sets on distinct objects
 		for k := 0; k < nrand/3; k++ {
 			n := 2 + r.Intn(3)
@@ -767,6 +855,11 @@ func runC02(e *Env) error {
 		j := jobs[i]
 		check(j.d, j.id, j.base, j.edited, j.expect, map[string]any{"dialect": j.d, "case": j.id, "from": j.base, "to": j.edited, "expect": j.expect})
 	})
+	c02Enums(e, pool, func(kind, sig, what, chk string, rep any) {
+		mu.Lock()
+		e.Res.Violate(kind, sig, what, chk, rep)
+		mu.Unlock()
+	}, &mu)
 	return nil
 }
 
